@@ -713,7 +713,7 @@ func litestream.(*DB).verifyWithExecutor(db, ctx, exec) (info, err)
   at litestream.(*DB).lastPageMatch#1 assert [C04.lpm-args] v_off >= 0 ==> $arg2 == v_off - (db.pageSize + 24) && $arg3 == db.pageSize + 24 && v_off - (db.pageSize + 24) > 32
   at litestream.(*DB).lastPageMatch#1 set v_lpm = $result0
   at litestream.(*DB).lastPageMatch#1 set v_lpmCalled = true
-  at litestream.(*DB).detectFullCheckpoint#1 assert [C04.detect-scope] len($arg1) == 2 && $arg1[1][0] == v_s1 && $arg1[1][1] == v_s2 && $arg1[0][0] == info.salt1 && $arg1[0][1] == info.salt2
+  at litestream.(*DB).detectFullCheckpoint#1 assert [C04.detect-scope] len($arg1) == 2 && $arg1[1][0] == dec.header.WALSalt1 && $arg1[1][1] == dec.header.WALSalt2 && $arg1[0][0] == info.salt1 && $arg1[0][1] == info.salt2
   at litestream.(*DB).detectFullCheckpoint#1 set v_detected = $result0
   at litestream.(*DB).detectFullCheckpoint#1 set v_detCalled = true
   ensures [C04.first-sync] err == nil && old(exec.pos.TXID) == 0 ==> info.snapshotting && info.offset == 32
@@ -730,6 +730,7 @@ func litestream.(*DB).lastPageMatch(db, ctx, dec, prevWALOffset, frameSize) (mat
 
 func litestream.(*DB).detectFullCheckpoint(db, ctx, knownSalts) (detected, err)
   modifies $heap, $alloc, file_closed
+  at litestream.(*WALReader).FrameSaltsUntil#1 assert [C04.detect-until] len(knownSalts) >= 1 ==> $arg1[0] == knownSalts[len(knownSalts) - 1][0] && $arg1[1] == knownSalts[len(knownSalts) - 1][1]
   ensures [C04.detect] err == nil ==> (detected <==> len(m) >= 1)
 
 // C03: the local position is derived from the highest local level-0 file and verified by checksum.
